@@ -26,6 +26,7 @@ import (
 
 	"github.com/lindb/lindb/constants"
 	v1 "github.com/lindb/lindb/index/v1"
+	"github.com/lindb/lindb/internal/verifhook"
 	"github.com/lindb/lindb/kv"
 	"github.com/lindb/lindb/models"
 	"github.com/lindb/lindb/pkg/imap"
@@ -88,6 +89,7 @@ func (s *metricSchemaStore) genFieldID(id metric.ID, f field.Meta, limits *model
 	if err != nil {
 		return 0, err
 	}
+	verifhook.Yield("index.schema.genFieldID.beforeLock")
 	s.lock.Lock()
 	defer s.lock.Unlock()
 
@@ -121,6 +123,7 @@ func (s *metricSchemaStore) genTagKeyID(id metric.ID, tagKey []byte, limits *mod
 	if err != nil {
 		return 0, err
 	}
+	verifhook.Yield("index.schema.genTagKeyID.beforeLock")
 	s.lock.Lock()
 	defer s.lock.Unlock()
 
@@ -234,6 +237,7 @@ func (s *metricSchemaStore) Flush() error {
 		return err
 	}
 
+	verifhook.Yield("index.schema.flush.beforeMark")
 	s.lock.Lock()
 	// mark schema persisted
 	_ = s.immutable.WalkEntry(func(_ uint32, value *metric.Schema) error {
